@@ -31,6 +31,7 @@ while i < len(a):
 
 def clean():
     subprocess.run(["git", "-C", REPO, "checkout", "--", "."], check=True)
+    subprocess.run(["git", "-C", REPO, "clean", "-fdq", "contracts", "packages"], check=True)  # files a patch added
 
 def run_check(p):
     r = subprocess.run([os.path.join(ROOT, "check"), p, "--tier", "quick"], cwd=ROOT,
